@@ -145,7 +145,7 @@ def t_cli_fresh(part, nparts, pairs):
 
 # ------------------------------------------------------------------------------------------------ library histories
 
-LIB_EVENTS = ['taxon-name-lookup', 'traverse-taxonomy', 'writable-sessionmaker-cls', 'writable-sessionmaker-flag', 'writable-session-open-close', 'load', 'query', 'orm-read', 'edit-attr', 'add-taxon', 'delete-genome', 'flush', 'autoflush-query', 'commit', 'rollback', 'close-session', 'gc', 'close-sigs']
+LIB_EVENTS = ['core-update', 'bulk-update', 'taxon-name-lookup', 'traverse-taxonomy', 'writable-sessionmaker-cls', 'writable-sessionmaker-flag', 'writable-session-open-close', 'load', 'query', 'orm-read', 'edit-attr', 'add-taxon', 'delete-genome', 'flush', 'autoflush-query', 'commit', 'rollback', 'close-session', 'gc', 'close-sigs']
 
 
 class World:
@@ -156,12 +156,13 @@ class World:
 		self.session_closed = False
 		self.pending = 0       # number of edit/add/delete operations since load / rollback / close
 		self.done_writable = []
+		self.raw_write_pending = False
 
 	def key(self):
 		if self.db is None:
 			return ('unloaded', tuple(self.done_writable))
 		s = self.db.session
-		return ('loaded', len(s.new), len(s.dirty), len(s.deleted), self.session_closed, self.sigs_closed)
+		return ('loaded', len(s.new), len(s.dirty), len(s.deleted), self.session_closed, self.sigs_closed, self.raw_write_pending)
 
 
 WRITABLE = ['writable-sessionmaker-cls', 'writable-sessionmaker-flag', 'writable-session-open-close']
@@ -172,7 +173,7 @@ def lib_enabled(w):
 		# before the database is loaded: somebody else in the process may have asked for a WRITABLE session maker on the same file
 		# (without writing anything) - the default session obtained afterwards must still be read-only
 		return ['load'] + [e for e in WRITABLE if e not in w.done_writable]
-	ev = ['orm-read', 'taxon-name-lookup', 'traverse-taxonomy', 'edit-attr', 'add-taxon', 'delete-genome', 'flush', 'autoflush-query', 'commit', 'rollback', 'close-session', 'gc', 'load']
+	ev = ['orm-read', 'taxon-name-lookup', 'traverse-taxonomy', 'core-update', 'bulk-update', 'edit-attr', 'add-taxon', 'delete-genome', 'flush', 'autoflush-query', 'commit', 'rollback', 'close-session', 'gc', 'load']
 	if not w.sigs_closed:
 		ev += ['query', 'close-sigs']
 	return ev
@@ -205,6 +206,7 @@ def lib_apply(w, ev):
 		w.db = ReferenceDatabase.load_from_dir(w.fx.dbdir)
 		w.sigs_closed = w.session_closed = False
 		w.pending = 0
+		w.raw_write_pending = False
 		from gambit.db import ReadOnlySession
 		if not isinstance(w.db.session, ReadOnlySession):
 			return dict(kind='default-session-is-not-read-only', session_class=type(w.db.session).__name__)
@@ -215,6 +217,16 @@ def lib_apply(w, ev):
 	elif ev == 'orm-read':
 		[t.name for t in s.query(Taxon).all()]
 		[g.description for g in w.db.genomeset.genomes]
+	elif ev in ('core-update', 'bulk-update'):
+		# write attempts that do not go through flush(): they run inside the session's transaction, which can never be committed - so they must
+		# be gone when the session is closed.  (While the transaction is open SQLite keeps a rollback journal next to the file: mid-history the
+		# directory listing may show it; the CONTENT of the two database files must not change, and after closing everything must be as before.)
+		import sqlalchemy
+		if ev == 'core-update':
+			s.execute(sqlalchemy.text("UPDATE taxa SET name = 'overwritten' WHERE id = 1"))
+		else:
+			s.bulk_update_mappings(Taxon, [dict(id=1, name='bulk overwritten'), dict(id=2, distance_threshold=0.999)])
+		w.raw_write_pending = True
 	elif ev == 'taxon-name-lookup':
 		# statements that go through the non-unique indexes of the schema
 		s.query(Taxon).filter_by(name='Genus one').all()
@@ -261,10 +273,12 @@ def lib_apply(w, ev):
 	elif ev == 'rollback':
 		s.rollback()
 		w.pending = 0
+		w.raw_write_pending = False
 	elif ev == 'close-session':
 		s.close()
 		w.session_closed = True
 		w.pending = 0
+		w.raw_write_pending = False
 	elif ev == 'gc':
 		gc.collect()
 	elif ev == 'close-sigs':
@@ -291,6 +305,9 @@ def lib_replay(fx, hist):
 				return w, dict(kind='not-enabled', at=i, error=repr(e)[:200]), s0
 		if v is None:
 			s = disk_state(fx.dbdir)
+			# SQLite's rollback journal of a transaction that is still open (possibly of a session that was dropped but not yet collected) is
+			# transient and not a change of the database bytes; it must be gone - and is compared strictly - once the history's sessions are closed
+			s = tuple(x for x in s if not x[0].endswith('-journal'))
 			if s != s0:
 				v = dict(kind='database-files-changed', before=[list(x) for x in s0], after=[list(x) for x in s])
 		if v is not None:
